@@ -898,6 +898,10 @@ func (x *DexBatch) CheckBasic() (err ErrorI) {
 		if deposit == nil {
 			return ErrInvalidArgument()
 		}
+		// addresses become state key segments
+		if len(deposit.Address) != crypto.AddressSize {
+			return ErrInvalidAddress()
+		}
 	}
 	// ensure there's not too many withdrawals
 	if len(x.Withdrawals) > MaxWithdrawsPerDexBatch {
@@ -908,6 +912,9 @@ func (x *DexBatch) CheckBasic() (err ErrorI) {
 		if withdrawal == nil || withdrawal.Percent == 0 || withdrawal.Percent > 100 {
 			return ErrInvalidPercentAllocation()
 		}
+		if len(withdrawal.Address) != crypto.AddressSize {
+			return ErrInvalidAddress()
+		}
 	}
 	// ensure there's not too many orders
 	if len(x.Orders) > MaxOrdersPerDexBatch {
@@ -917,6 +924,9 @@ func (x *DexBatch) CheckBasic() (err ErrorI) {
 	for _, order := range x.Orders {
 		if order == nil {
 			return ErrInvalidArgument()
+		}
+		if len(order.Address) != crypto.AddressSize {
+			return ErrInvalidAddress()
 		}
 	}
 	// ensure there's not too many receipts
